@@ -26,6 +26,7 @@ def run(rep, tier, seed):
     rows = semreplay.build_rows(rep, tier)
     opts = {"props": {"C03"}, "entry_points": True, "spellings": 2 if tier == "quick" else 3, "seed": seed,
             "reject_cap": 16 if tier == "quick" else 48, "viol_confs": 6 if tier == "quick" else 2}
+    opts["signal_table"] = semreplay.signal_table(rep)
     tot = semreplay.replay(rep, rows, opts)
     report(rep, tot, "C03")
     rep.cov["exhaustive"] = False
